@@ -5,9 +5,19 @@ Oracle on the implementation (independent of the model): the role sequence of ev
 sequence the statement prescribes for page k of P; every page break restates the paper size and margins of the
 document start, which equal configured inches × 1440 (rounded); landscape flagged; page header / footer defined
 exactly once.  Correspondence: role sequence per page of the Lean layout equals the observed one.
+
+Container spellings (`SPELLED` documents, docgen "spelling"): the statement speaks about the configured components,
+not about the Python container they are handed over in.  The same documents are therefore also constructed with
+rtf_column_header as a tuple / a single RTFColumnHeader object (header rows with and without their own
+col_rel_width, 1–3 rows), the table as a one-section list (df=[frame], rtf_body=[RTFBody]), and the texts of title /
+subline / page header / page footer / footnote / source / header rows as str / list / tuple / one-row frame.  The
+layout model takes the header LIST (`LDoc.headers`); what the constructor and the renderer's type guards make of the
+container is Model/HeaderInput.lean (Props/C06in.lean), tied by the post-construction observation of
+`worker_extra` / `extra_model_check`.
 """
 from __future__ import annotations
 
+import json
 import struct
 from fractions import Fraction
 
@@ -19,19 +29,28 @@ MANIFEST = dict(
          "source occur at most once and exactly on the pages their placement selects; column headers on page 1 and "
          "later pages iff pageby_header; one break at the start of every later page; on a one-page document the three "
          "placements coincide. Tied to the code by observation over the full placement product on 1/2/3/many-page "
-         "documents, random paper geometry and figure documents; _should_show_element is translated from its source "
-         "on every run and proved equal to the model's placement rule (Props/C06py.lean).",
+         "documents, random paper geometry and figure documents, with the component arguments in every container "
+         "spelling the constructors accept (column headers as list / tuple / single object, the table as a one-section "
+         "list, texts as str / list / tuple / frame); _should_show_element is translated from its source "
+         "on every run and proved equal to the model's placement rule (Props/C06py.lean). Props/C06in.lean: whatever "
+         "container the header rows are handed over in, exactly the configured rows reach the renderer's header loop "
+         "(Model/HeaderInput.lean: field validation, the constructor's rebuild as a list, the type guards' dispatch), "
+         "tied to the code by the field after construction and the rendered rows for every argument shape.",
     note="Paper geometry after each break and the single header/footer definition are checked on the observation "
          "(exact rational arithmetic on the configured floats); they are emitted by string templates outside the "
-         "role-level model.",
+         "role-level model. The layout model takes the header LIST; the container is a construction matter "
+         "(Model/HeaderInput.lean). Recorded refusals: nested headers on a single table and a tuple as first section "
+         "raise AttributeError at construction; [()] is accepted and raises AttributeError at encode.",
     technique="Lean 4 proof (unfolding + finite flag split, universal in page count) + observation-level correspondence",
     design="7/C06",
 )
 
 RULE = ("the product page_title × page_footnote × page_source × footnote kind × source kind × pageby_header × strategy × "
         "header mode on documents of 1, 2, 3 and many pages, random paper size/margins incl. A4 and landscape, figure "
-        "documents with 1..5 figures; non-trivial = ≥ 2 pages with at least one placed component; distinct by the "
-        "configuration tuple and page count")
+        "documents with 1..5 figures; the same product with the component arguments in every container spelling the "
+        "constructors accept (column headers as list / tuple / single object with 1-3 rows carrying own widths on "
+        "all / some / no rows, the table as a one-section list, texts as str / list / tuple / frame); non-trivial = "
+        "≥ 2 pages with at least one placed component; distinct by the configuration tuple and page count")
 
 PLACE = ["first", "last", "all"]
 
@@ -93,13 +112,63 @@ def expected_geometry(geo):
     return {k: Fraction(v) * 1440 for k, v in zip(names, [w, h] + list(m))}, land
 
 
+BASE = {"quick": 420, "thorough": 6000}
+SPELLED = {"quick": 300, "thorough": 3000}     # documents of the container-spelling class, after the BASE documents
+HEADER_CONTAINERS = ["tuple", "single", "tuple", "list"]
+OWN_WIDTHS = ["all", "all", "mixed", "none"]
+
+
+def spelled_headers(rng, spec, info, j):
+    """explicit header rows for document j of the container-spelling class: 1–3 rows (upper rows span), own
+    col_rel_width (one entry per cell) on all / some / none of them, and the container they are handed over in"""
+    how = HEADER_CONTAINERS[j % 4]
+    own = OWN_WIDTHS[(j // 4) % 4]
+    if info["header_mode"] == "no_colheader" or rng.random() < 0.12:
+        # default / absent / suppressed headers stay (no container to spell, or an empty one)
+        return {"headers": how} if spec["headers"] == [] and how != "single" else {}
+    nd = len(info["displayed"])
+    nrows = 1 if how == "single" else rng.choice([1, 2, 2, 3])
+    rows = []
+    for i in range(nrows):
+        # upper rows may span; a row with fewer cells than the table has columns needs widths of its own
+        ncell = nd if i == nrows - 1 or own == "none" else rng.choice([1, 1, nd, max(1, nd // 2)])
+        rows.append(dict(text=[f"HD{i}c{c}" for c in range(ncell)]))
+    flags = {"all": [True] * nrows, "none": [False] * nrows}.get(own)
+    if flags is None:
+        flags = [rng.random() < 0.5 for _ in range(nrows)]
+        if nrows > 1 and len(set(flags)) == 1:
+            flags[rng.randrange(nrows)] = not flags[0]
+    for row, f in zip(rows, flags):
+        if f or len(row["text"]) != nd:
+            row["col_rel_width"] = [rng.choice([1, 1, 2, 1.5]) for _ in row["text"]]
+    spec["headers"] = rows
+    info["header_mode"] = f"explicit:{nrows}-rows/own-widths={docgen.own_widths_class(rows)}"
+    return {"headers": how}
+
+
 class C06(layfamily.Family):
     prop, tag = "C06", "c06"
 
     def ndocs(self, tier):
-        return 420 if tier == "quick" else 6000
+        return BASE[tier] + SPELLED[tier]
 
     def gen(self, rng, k, tier):
+        if k < BASE[tier]:
+            return self.gen_base(rng, k, tier)
+        # the container-spelling class: a document of the base generator (its own index walks the same systematic
+        # product), explicit headers re-drawn with own widths, every component argument in a drawn spelling
+        j = k - BASE[tier]
+        spec, info = self.gen_base(rng, 7 * j + 3, tier)
+        force = spelled_headers(rng, spec, info, j) if spec.get("kind") != "figure" else {}
+        if spec.get("kind") == "table" and j % 3 == 2:
+            force["sections"] = "list"
+        spec["spelling"] = docgen.gen_spelling(rng, spec, p=0.5, force=force)
+        if spec.get("kind") == "table" and j % 3 != 2:
+            spec["spelling"].pop("sections", None)
+        info["labels"] = sorted(set((info.get("labels") or []) + ["spelled-doc"] + docgen.spelling_labels(spec)))
+        return spec, info
+
+    def gen_base(self, rng, k, tier):
         if k % 10 == 9:
             return gen_figure(rng)
         # systematic part of the product through k, the rest random
@@ -217,13 +286,236 @@ class C06(layfamily.Family):
 FAM = C06()
 
 
+# ----------------------------------------------------------------------------- the header argument (Model/HeaderInput)
+# What RTFDocument makes of the `rtf_column_header=` ARGUMENT in every container shape — a single object, a list or a
+# tuple of 0–3 rows (own widths on all / some / none, a None entry), lists / tuples of per-section lists / tuples —
+# for a single frame and for lists of 1–3 frames: accepted or refused (error class), the field after construction
+# (container types included) and the header objects rendered above each section's rows, against
+# `Model.HeaderInput.construct` / `renderedDoc` (driver op `header_input`).  Oracle (independent of the model): on a
+# single table — handed over as a frame or as a one-section list — with a flat header argument that was accepted,
+# every configured row appears above the first data row of the first page, in order (C06's header clause; the
+# multi-page side is the layout documents' business).
+
+def _hin_rows(rng, n, ids, none_ok):
+    rows = []
+    for _ in range(n):
+        if none_ok and rng.random() < 0.2:
+            rows.append(None)
+        else:
+            rows.append([len(ids), rng.random() < 0.5])
+            ids.append(rows[-1])
+    return rows
+
+
+def gen_header_input(rng, k):
+    nsec = [None, None, 1, 2, 3, 1][k % 6]
+    kind = ["flat", "flat", "nested", "flat", "single", "nested", "flat", "nested"][(k // 6) % 8]
+    ids: list = []
+    box = lambda: rng.choice(["list", "tuple"])      # noqa: E731
+    own = rng.choice(["all", "none", "mixed", "mixed"])
+    if k % 97 == 96:
+        arg = None
+    elif kind == "single":
+        arg = dict(single=_hin_rows(rng, 1, ids, False)[0])
+    elif kind == "flat":
+        arg = dict(flat=box(), rows=_hin_rows(rng, rng.choice([0, 1, 1, 2, 2, 3]), ids, rng.random() < 0.1))
+    else:
+        m = rng.choice([nsec or 1] * 3 + [1, 2, 3])
+        arg = dict(nested=box(), secs=[dict(box="list" if (i == 0 and rng.random() < 0.6) else box(),
+                                            rows=_hin_rows(rng, rng.choice([0, 1, 1, 2]), ids, True)) for i in range(m)])
+    if own != "mixed":
+        for h in ids:
+            h[1] = own == "all"
+    return dict(level="header-input", arg=arg, nsec=nsec, pageby_header=rng.random() < 0.7,
+                nrow=rng.choice([40, 40, 6]))
+
+
+def _hin_shape(v):
+    """JSON form (Driver/HeaderInput.lean) of a value of the field rtf_column_header"""
+    import rtflite as rtf
+
+    def hdr(h):
+        if h is None:
+            return None
+        if not isinstance(h, rtf.RTFColumnHeader):
+            raise TypeError(f"entry of type {type(h).__name__}")
+        return [int(h.text[0][2:-1]), h.col_rel_width is not None]
+    if v is None:
+        return None
+    if isinstance(v, rtf.RTFColumnHeader):
+        return dict(single=hdr(v))
+    b = {list: "list", tuple: "tuple"}[type(v)]
+    if any(isinstance(x, (list, tuple)) for x in v):
+        return dict(nested=b, secs=[dict(box={list: "list", tuple: "tuple"}[type(x)], rows=[hdr(h) for h in x]) for x in v])
+    return dict(flat=b, rows=[hdr(h) for h in v])
+
+
+def _hin_worker(case):
+    try:
+        import contextlib
+        import io
+        import re
+
+        import polars as pl
+        import rtflite as rtf
+
+        def mk(h):
+            if h is None:
+                return None
+            kw = dict(text=[f"HD{h[0]}x", "HDy"])
+            if h[1]:
+                kw["col_rel_width"] = [1, 2]
+            return rtf.RTFColumnHeader(**kw)
+
+        def seq(b, items):
+            return list(items) if b == "list" else tuple(items)
+        a = case["arg"]
+        if a is None:
+            arg = None
+        elif "single" in a:
+            arg = mk(a["single"])
+        elif "flat" in a:
+            arg = seq(a["flat"], [mk(h) for h in a["rows"]])
+        else:
+            arg = seq(a["nested"], [seq(s["box"], [mk(h) for h in s["rows"]]) for s in a["secs"]])
+        nsec = case["nsec"]
+        frames = [pl.DataFrame({"a": [f"S{i}r{j}" for j in range(9)], "b": ["v"] * 9}) for i in range(nsec or 1)]
+        body = lambda: rtf.RTFBody(pageby_header=case["pageby_header"])     # noqa: E731
+        kw = dict(df=frames[0], rtf_body=body()) if nsec is None else dict(df=frames, rtf_body=[body() for _ in frames])
+        out = dict(case=case)
+        with contextlib.redirect_stdout(io.StringIO()):
+            try:
+                doc = rtf.RTFDocument(rtf_column_header=arg, rtf_page=rtf.RTFPage(nrow=case["nrow"]), **kw)
+            except Exception as e:  # noqa: BLE001
+                out["construct_error"] = docgen.classify_exc(e)
+                return out
+            out["post"] = _hin_shape(doc.rtf_column_header)
+            try:
+                text = doc.rtf_encode()
+            except Exception as e:  # noqa: BLE001
+                out["encode_error"] = docgen.classify_exc(e)
+                return out
+        # header objects above each section's rows ON THE FIRST PAGE the section appears on
+        rendered = [[] for _ in frames]
+        started = [False] * len(frames)
+        pending: list = []
+        for m in re.finditer(r"HD(\d+)x|S(\d+)r(\d+)|\\page\b", text):
+            if m.group(1) is not None:
+                pending.append(int(m.group(1)))
+            elif m.group(2) is not None:
+                i = int(m.group(2))
+                if not started[i]:
+                    started[i] = True
+                    rendered[i] = pending
+                pending = []
+            else:
+                pending = []
+        out["rendered_ids"] = rendered
+        out["pages"] = text.count("\\page{") + 1
+        return out
+    except Exception:  # noqa: BLE001
+        import traceback
+
+        return dict(machinery=traceback.format_exc()[-1500:])
+
+
+def _hin_judge(o, d):
+    """(fails, disagreements) of one header-input outcome `o` against the model's answer `d`"""
+    case = o["case"]
+    a = case["arg"]
+    fails, dis = [], []
+    flat_rows = None
+    if a is not None and "single" in a:
+        flat_rows = [a["single"]]
+    elif a is not None and "flat" in a and all(h is not None for h in a["rows"]):
+        flat_rows = a["rows"]
+    if flat_rows is not None and case["nsec"] in (None, 1) and "rendered_ids" in o:
+        want = [h[0] for h in flat_rows]
+        if o["rendered_ids"][0] != want:
+            fails.append(f"column header rows {want} were configured ({'a single object' if 'single' in a else 'a ' + a['flat']}"
+                         f", own col_rel_width on {sum(1 for h in flat_rows if h[1])} of {len(flat_rows)}; "
+                         f"{'one-section list' if case['nsec'] else 'single frame'}); the first page shows the rows "
+                         f"{o['rendered_ids'][0]} above its first data row")
+    mine = {k: o[k] for k in ("construct_error", "post", "encode_error") if k in o}
+    theirs = {k: d[k] for k in ("construct_error", "post", "encode_error") if k in d}
+    if "rendered_ids" in o:
+        mine["rendered"] = o["rendered_ids"]
+    if "rendered" in d:
+        theirs["rendered"] = [[h[0] for h in sec] for sec in d["rendered"]]
+    if mine != theirs:
+        dis.append(f"rtf_column_header={json.dumps(a)} with df {'a frame' if case['nsec'] is None else 'a list of %d' % case['nsec']}: "
+                   f"implementation {json.dumps(mine)[:300]} vs Model.HeaderInput {json.dumps(theirs)[:300]}")
+    return fails, dis
+
+
+def _hin_label(case):
+    a = case["arg"]
+    kind = "None" if a is None else "single" if "single" in a else f"flat-{a['flat']}" if "flat" in a else \
+        f"nested-{a['nested']}-of-" + "+".join(sorted({s_["box"] for s_ in a["secs"]}))
+    return kind, ("frame" if case["nsec"] is None else f"{case['nsec']}-section-list")
+
+
+def run_header_input(res):
+    n = 240 if res.tier == "quick" else 3000
+    cases = [gen_header_input(common.sub_rng(res.seed, "c06hin", k), k) for k in range(n)]
+    outs = common.pool_map(_hin_worker, cases, chunksize=8)
+    for o in outs:
+        if "machinery" in o:
+            raise common.MachineryError("worker failed: " + o["machinery"])
+    drv = common.driver_batch([dict(op="header_input", arg=c["arg"], nsec=c["nsec"]) for c in cases])
+    for o, d in zip(outs, drv):
+        kind, secs = _hin_label(o["case"])
+        outcome = "refused" if "construct_error" in o else "encode-error" if "encode_error" in o else "rendered"
+        res.count(f"header-input:{kind}:{secs}:{outcome}")
+        res.case(o["case"], ("header-input", kind, secs, outcome) if outcome == "rendered" and any(o["rendered_ids"]) else None)
+        fails, dis = _hin_judge(o, d)
+        res.corr_checked += 1
+        for f in fails[:1]:
+            res.fail(o["case"], f)
+        for m in dis[:1]:
+            res.disagree(o["case"], m)
+
+
+FAM.extra_streams = run_header_input
+
+
 def run(res, build):
     return layfamily.run_family(
         FAM, res, build, RULE, layfamily.TRUSTED_COMMON, layfamily.ASSUME_COMMON,
         explanation="C06_order, C06_title/subline/footnote/source, C06_col_headers, C06_break, C06_single_page hold "
                     "for every LDoc and page. Geometry restatement and the single header/footer definition are "
-                    "observation-level clauses (oracle), as are figure documents.")
+                    "observation-level clauses (oracle), as are figure documents. C06in_*: for every container the "
+                    "constructors accept for the column headers (single object, list, tuple; the table as a "
+                    "one-section list) the configured rows reach the header loop, because construction hands on a "
+                    "list — the only sequence the renderer's type guards recognise.")
 
 
 def replay(payload):
+    case = payload.get("case") or {}
+    if "spec" not in case:
+        for b in payload.get("broken", []):
+            if b.get("kind") == "correspondence" and (b.get("case") or {}).get("level") == "header-input":
+                case = b["case"]
+    if case.get("level") == "header-input":
+        o = common.pool_map(_hin_worker, [case] * 4)[0]
+        if "machinery" in o:
+            print(o["machinery"])
+            return 2
+        d = common.driver_batch([dict(op="header_input", arg=case["arg"], nsec=case["nsec"])])[0]
+        print("argument:", json.dumps(case["arg"]), "| df:", "a frame" if case["nsec"] is None else f"a list of {case['nsec']}")
+        print("implementation:", json.dumps({k: v for k, v in o.items() if k != "case"}))
+        print("model:", json.dumps(d))
+        fails, dis = _hin_judge(o, d)
+        for f in fails:
+            print("FAIL:", f)
+        for m in dis:
+            print("MODEL DISAGREES:", m)
+        if fails:
+            print("VIOLATION property=C06 replay=<given>")
+            return 1
+        if dis:
+            print("VIOLATION property=C06 replay=<given> no-failing-input-found")
+            return 1
+        print("property holds on this input")
+        return 0
     return layfamily.replay_family(FAM, payload)
